@@ -95,7 +95,22 @@ class StarCraftMpqIo:
             self._stormlib_wrapper.close_archive(
                 self._stormlib_wrapper.compact_archive(open_result)
             )
-            shutil.copyfile(temp_mpq_file, path_to_new_mpq_file)
+            self._copy_file_atomically(temp_mpq_file, path_to_new_mpq_file)
+
+    @classmethod
+    def _copy_file_atomically(
+        cls, path_to_source: str, path_to_destination: str
+    ) -> None:
+        """Copy to a sibling work file and rename it over the destination, so that the
+        destination is never left partially written if the copy fails."""
+        work_file = f"{path_to_destination}.{os.urandom(8).hex()}.tmp"
+        try:
+            shutil.copyfile(path_to_source, work_file)
+            os.replace(work_file, path_to_destination)
+        except BaseException:
+            if os.path.exists(work_file):
+                os.remove(work_file)
+            raise
 
     def _build_wav_metadata_lookup(
         self, path_to_base_mpq_file: str
